@@ -119,10 +119,10 @@ func (e *Expression) Add(res fhir.Resource, name string, value fhir.Base, option
 		// and error if it would never be possible.
 		return fmt.Errorf("%w: '%v'", ErrInvalidField, name)
 	}
-	if res == nil {
+	if isNilMessage(res) {
 		return fmt.Errorf("%w: nil input resource", ErrInvalidInput)
 	}
-	if value == nil {
+	if isNilMessage(value) {
 		return fmt.Errorf("%w: nil replacement value", ErrInvalidInput)
 	}
 
@@ -297,7 +297,7 @@ func (e *Expression) newSetOneof(msg protoreflect.Message, value proto.Message) 
 //
 // See documentation: https://hl7.org/fhir/R4/fhirpatch.html#concept.
 func (e *Expression) Delete(res fhir.Resource, options ...fhirpath.EvaluateOption) error {
-	if res == nil {
+	if isNilMessage(res) {
 		return fmt.Errorf("%w: nil input resource", ErrInvalidInput)
 	}
 	ctx, evalResult, err := e.evaluate(res, options...)
@@ -365,13 +365,22 @@ func (e *Expression) tryDelete(collection system.Collection, toDelete any) error
 	return nil
 }
 
+// isNilMessage reports whether msg is nil, or a nil pointer of a message type
+// held in a non-nil interface (which the reflection API can read but not set).
+func isNilMessage(msg proto.Message) bool {
+	return msg == nil || !msg.ProtoReflect().IsValid()
+}
+
 // Insert inserts a value into the expression's list, at the 0-based index specified.
 // Prefer Add() if you are inserting at the end of a list.
 //
 // See documentation: https://hl7.org/fhir/R4/fhirpatch.html#concept.
 func (e *Expression) Insert(res fhir.Resource, value fhir.Base, index int, options ...fhirpath.EvaluateOption) error {
-	if res == nil {
+	if isNilMessage(res) {
 		return fmt.Errorf("%w: nil input resource", ErrInvalidInput)
+	}
+	if isNilMessage(value) {
+		return fmt.Errorf("%w: nil value to insert", ErrInvalidInput)
 	}
 	ctx, evalResult, err := e.evaluate(res, options...)
 	if err != nil {
@@ -472,8 +481,11 @@ func (e *Expression) Move(resource fhir.Resource, sourceIndex, destIndex int, op
 //
 // See documentation: https://hl7.org/fhir/R4/fhirpatch.html#concept.
 func (e *Expression) Replace(resource fhir.Resource, value fhir.Base, options ...fhirpath.EvaluateOption) error {
-	if resource == nil {
+	if isNilMessage(resource) {
 		return fmt.Errorf("%w: nil input resource", ErrInvalidInput)
+	}
+	if isNilMessage(value) {
+		return fmt.Errorf("%w: nil replacement value", ErrInvalidInput)
 	}
 	ctx, evalResult, err := e.evaluate(resource, options...)
 	if err != nil {
